@@ -1441,6 +1441,57 @@ def O5(ctx, rule="O5"):
     ctx.entry_floor(rule, rule, ("fold", "for_each", "try_fold", "try_for_each"), "StreamOutcome::new call")
 
 
+def O7(ctx, rule="O7"):
+    """Frame rule of the outcome type: a method that consumes an outcome and returns one (`map`, `replace`, `replace_with`) hands
+    on the state and both id lists exactly as they were (only the value changes), and the read accessors return the field they
+    are named after."""
+    m, fb, fl = ctx.model, ctx.fb, ctx.model.flow
+    adt = fb.adts.get("stream_outcome::StreamOutcome")
+    if not adt:
+        ctx.unverifiable(rule, "outcome", "-", "StreamOutcome not found")
+        return
+    flds = [f["name"] for f in adt["variants"][0]["fields"]]
+    kept = [i for i, n_ in enumerate(flds) if n_ != "value"]
+    n = 0
+    # methods of the outcome type taking the outcome as their first parameter: they may delegate to each other
+    # (`replace(v)` = `replace_with(|old| (v, old))`), so field i of any of their `self` parameters is "the field as given"
+    selfish = {b_.id for b_ in fb.prod_bodies() if b_.kind == "fn" and (fb.fns.get(b_.id) or {}).get("inputs") and
+               ((fb.fns.get(b_.id) or {}).get("impl_self") or "").startswith("stream_outcome::StreamOutcome") and
+               fb.fns[b_.id]["inputs"][0]["s"].lstrip("&").replace("mut ", "").startswith("stream_outcome::StreamOutcome<")}
+    for b in fb.prod_bodies():
+        sig = fb.fns.get(b.id)
+        if not sig or b.kind != "fn" or not (sig.get("impl_self") or "").startswith("stream_outcome::StreamOutcome") or sig.get("impl_trait"):
+            continue
+        if not sig["inputs"] or not sig["inputs"][0]["s"].lstrip("&").replace("mut ", "").startswith("stream_outcome::StreamOutcome<"):
+            continue
+        out = sig["output"]["s"]
+        by_value = sig["inputs"][0]["s"].startswith("stream_outcome::StreamOutcome<")
+        if by_value and "stream_outcome::StreamOutcome<" in out:
+            base = () if out.startswith("stream_outcome::StreamOutcome<") else ((0,) if out.startswith("(stream_outcome::StreamOutcome<") else None)
+            if base is None:
+                ctx.unverifiable(rule, "frame|%s" % sig["name"], m.where(b), "return type `%s` not understood" % out)
+                continue
+            for i in kept:
+                n += 1
+                srcs = fl.sources_local(b, 0, base + (i,))
+                ok = bool(srcs) and all(x.kind == "param" and x[1] in selfish and x[2] == 1 and tuple(x[3][:1]) == (i,) for x in srcs) and \
+                    any(x[1] == b.id for x in srcs)
+                ctx.check(ok, rule, "frame|%s|%s" % (sig["name"], flds[i]), m.where(b),
+                          "StreamOutcome::%s returns `%s` exactly as the outcome it was given had it" % (sig["name"], flds[i]),
+                          "StreamOutcome::%s does not hand `%s` on unchanged (it comes from %s): what the run recorded is lost when the "
+                          "caller transforms the outcome" % (sig["name"], flds[i], [fmt_src(x) for x in srcs][:3]))
+        elif not by_value and sig["name"] in flds and sig["name"] != "value" and len(sig["inputs"]) == 1:
+            i = flds.index(sig["name"])
+            n += 1
+            srcs = fl.sources_local(b, 0, ())
+            ok = bool(srcs) and all(x.kind == "param" and x[1] == b.id and x[2] == 1 and tuple(x[3][:1]) == (i,) for x in srcs)
+            ctx.check(ok, rule, "accessor|%s" % sig["name"], m.where(b),
+                      "StreamOutcome::%s() returns the field `%s`" % (sig["name"], flds[i]),
+                      "StreamOutcome::%s() returns something other than the field `%s`: %s" % (sig["name"], flds[i], [fmt_src(x) for x in srcs][:3]))
+    if n < 3:
+        ctx.unverifiable(rule, "floor", "-", "expected the transforming methods / accessors of StreamOutcome, found %d obligations" % n)
+
+
 def lifted_guards(ctx, b, bb):
     """[(body, switch_bb, discr expr, values)] guards of block bb in b, plus --
     when b is (the coroutine of) a closure that a private higher-order helper
